@@ -331,6 +331,21 @@ func genRequest(g *gen, c *Cfg, o *relayGenOpts, learnedHosts []string) Op {
 	}
 	srcIP := topo.uas[g.intn(len(topo.uas))]
 	srcPort := g.pick2(5060, 5060, 5090, 40000+g.intn(1000))
+	if proto == "udp" && g.chance(7) {
+		// a request that one of the service's own backends originates, from its configured address and port
+		var bs []string
+		for _, x := range c.Listens {
+			for _, b := range x.Backends {
+				if strings.HasPrefix(b, "udp://") && net.ParseIP(udpHost(b[6:])) != nil {
+					bs = append(bs, b[6:])
+				}
+			}
+		}
+		if len(bs) > 0 {
+			a := udpAddr(bs[g.intn(len(bs))])
+			srcIP, srcPort = a.IP.String(), a.Port
+		}
+	}
 	if o.force != nil {
 		li, proto, srcIP, srcPort = o.force.li, o.force.proto, o.force.srcIP, o.force.srcPort
 		l = c.Listens[li]
@@ -721,6 +736,10 @@ func genRelayPlan(seed uint64, tier string, focus string) *Plan {
 			p.Ops = append(p.Ops, fo)
 			continue
 		}
+		if g.chance(6) {
+			p.Ops = append(p.Ops, Op{Kind: "keepalive", ID: g.nextID(), Listen: g.intn(len(p.Cfg.Listens)), Proto: "udp", SrcIP: topo.uas[g.intn(len(topo.uas))], SrcPort: 5060,
+				Data: []byte(g.pick("\r\n\r\n", "\r\n", "\n", " \r\n"))})
+		}
 		op := genRequest(g, &p.Cfg, o, learned)
 		learned = append(learned, op.SrcIP)
 		// hosts listed in a Via (any position, any layout) are taught as well
@@ -826,6 +845,14 @@ func execRelay(t *testing.T, p *Plan) *Result {
 					}
 					st.judgeBurst(pending)
 					pending = nil
+				}
+			case "keepalive":
+				// a NAT keep-alive: a datagram of nothing but CRLF. Nothing is owed for it (anything emitted for it is
+				// unattributable), and it must leave no trace in what follows.
+				l := p.Cfg.Listens[op.Listen]
+				if l.UDP != 0 {
+					w.stat("probe:udp-keepalive-datagram")
+					w.N.InjectUDP(udpAddr(hostPort(op.SrcIP, op.SrcPort)), udpAddr(hostPort(l.Addr, l.UDP)), op.Data, time.Duration(op.DelayUs)*time.Microsecond+100*time.Microsecond)
 				}
 			case "advance":
 				w.K.Advance(time.Duration(op.Dur))
@@ -1627,6 +1654,15 @@ func (st *relayState) judgeRequest(op *Op, in *sipwire.Msg, ems []*Emitted, srcP
 				if rr.Host == ea && (rr.Port == ep || a.addr == "" && (rr.Port == al.UDP || rr.Port == al.TCP)) {
 					okRR = true
 				}
+			}
+			// "that listener's ... address and port": the new Via and the new Record-Route entry name the same endpoint,
+			// whichever listener it is (also where the choice itself is a don't-care)
+			rp := rr.Port
+			if rp == 0 {
+				rp = 5060
+			}
+			if rr.Host != nv.Host || rp != nv.EffPort() {
+				st.v("C06", "via-and-record-route-name-different-listeners", id, "insert="+insert, "new Via %q and new Record-Route entry %q name different endpoints", nv.Raw, rr.Raw)
 			}
 			_, lr := rr.UParam("lr")
 			if insert == "yes" && (!okRR || !lr || rr.Scheme != "sip" || rr.User != "") {
